@@ -230,6 +230,10 @@ def families(dialect):
         ("offset-2", lambda p, r, T: p.call(r, "offset", 2)),
         ("union-more", lambda p, r, T: p.call(r, "union", sub(p, T, "t3", "b"))),
         ("minus-more", lambda p, r, T: p.call(r, "minus", sub(p, T, "t2", "b"))),
+        # the operator spellings (+ union, * intersect, - minus)
+        ("plus-more", lambda p, r, T: p.bin("+", r, sub(p, T, "t3", "c"))),
+        ("times-more", lambda p, r, T: p.bin("*", r, sub(p, T, "t2", "c"))),
+        ("minus-op-more", lambda p, r, T: p.bin("-", r, sub(p, T, "t3", "b"))),
         ("replace-t1-t3", lambda p, r, T: p.call(r, "replace_table", T["t1"], T["t3"])),
         ("replace-t2-t3", lambda p, r, T: p.call(r, "replace_table", T["t2"], T["t3"])),
         ("as-u", lambda p, r, T: p.call(r, "as_", "u")),
